@@ -6,7 +6,9 @@
 (*   runs  : the SAME stream fed under different chunkings                 *)
 (*   run   = [calls : Seq([chunk, raised, hunt, esc, frames])]             *)
 (*   frame = [o, valid, haspayload, payload, dst, src, ctrl, hcs, fcs,     *)
-(*            flen, ftype, seg, ws, we, raised]                            *)
+(*            flen, ftype, seg, ws, we, raised, stable]                    *)
+(*           stable: as_bytes / is_valid / payload of the SAME object,     *)
+(*           asked again after the whole stream was fed, are unchanged     *)
 (*   mode  = "free"   no plan: C01, C06, C14 clauses only                  *)
 (*           "clean"  plan is a C02 stream: + C02 clauses                  *)
 (*           "resync" plan is noise + clean suffix: + C16 clause           *)
@@ -40,7 +42,9 @@ C01Fails(t, r) ==
       bv == {k \in 1..Len(outs) : ~ClauseV(outs[k])}
       bf == {k \in 1..Len(outs) : ~ClauseF(outs[k])}
       bs == {k \in 1..Len(outs) : ~ClauseSAt(cfg, fed, outs, k)}
-  IN (IF bv # {} THEN F("C01.V", r, First(bv)) ELSE <<>>)
+      bl == {k \in 1..Len(outs) : ~outs[k].stable}      \* the frame object answered differently when asked again after the run
+  IN (IF bl # {} THEN F("C01.stable", r, First(bl)) ELSE <<>>)
+     \o (IF bv # {} THEN F("C01.V", r, First(bv)) ELSE <<>>)
      \o (IF bf # {} THEN F("C01.F", r, First(bf)) ELSE <<>>)
      \o (IF bs # {} THEN F("C01.S", r, First(bs)) ELSE <<>>)
 
@@ -60,7 +64,9 @@ C02Fails(t, r) ==
   LET outs == Outs(t.runs[r])
       vs == SelectSeq(outs, LAMBDA f : f.valid)
       bf == {k \in 1..Len(vs) : ~FieldsExact(vs[k])}
+      bl == {k \in 1..Len(outs) : outs[k].valid /\ ~outs[k].stable}
   IN (IF ValidOcts(outs) # PlanFrames(t.plan) THEN F("C02.deliver", r, 0) ELSE <<>>)
+     \o (IF bl # {} THEN F("C02.stable", r, First(bl)) ELSE <<>>)
      \o (IF bf # {} THEN F("C02.fields", r, First(bf)) ELSE <<>>)
 
 \* ---- C16
